@@ -351,20 +351,89 @@ pub fn gen_positions(rng: &mut Rng, text: &str, prog: &gen_prog::Prog, offs: &[u
     v
 }
 
+/// Documents in which a user declaration carries a PREDEFINED name (procedure or type redeclared, `main`
+/// declared twice, a local named like the procedure around it): the table keeps the predefined / first
+/// entry, whose ranges are not those of the declaration under the cursor.  Every handler, at every token.
+pub fn gen_predefined_name_cases(rng: &mut Rng, out: &mut Vec<String>) {
+    const BUILTINS: &[&str] = &["printi", "printc", "readi", "readc", "exit", "time", "clearAll", "setPixel", "drawLine", "drawCircle"];
+    let b = *rng.pick(BUILTINS);
+    let text = match rng.below(6) {
+        0 => format!("proc {b}(i: int) {{\n  i := 1;\n  {b}(i);\n}}\nproc main() {{\n  {b}(2);\n}}\n"),
+        1 => format!("// doc\nproc {b}(ref a: int, k: int) {{ var {b}: int; a := k + {b}; }}\nproc main() {{ }}\n"),
+        2 => format!("type {b} = array [2] of int;\nproc main() {{ var v: {b}; v[0] := 1; }}\n"),
+        3 => "proc main() { }\nproc main() { var main: int; main := 1; main(); }\n".to_string(),
+        4 => "type int = array [3] of int;\nproc main() { var i: int; i := 0; }\n".to_string(),
+        _ => format!("proc main() {{ var {b}: int; {b} := 1; {b}({b}); }}\ntype t = int;\ntype t = {b};\n"),
+    };
+    let h = hex_str(&text);
+    out.push(format!("NEW {}", h));
+    for op in ["FOLD", "SEM"] {
+        out.push(format!("{} {}", op, h));
+    }
+    out.push(format!("FMT {} 1 4", h));
+    // every identifier-ish token start
+    let bytes = text.as_bytes();
+    let mut starts = vec![];
+    for i in 0..bytes.len() {
+        let is_id = |c: u8| c.is_ascii_alphanumeric() || c == b'_';
+        if is_id(bytes[i]) && (i == 0 || !is_id(bytes[i - 1])) {
+            starts.push(i);
+        }
+    }
+    for &o in &starts {
+        let (l, c) = lsp_pos(&text, o + rng.below(2));
+        for k in ["decl", "typedef", "impl"] {
+            out.push(format!("GOTO {} {} {} {}", k, h, l, c));
+        }
+        for op in ["HOV", "REFS", "PREP", "SIG", "COMP"] {
+            out.push(format!("{} {} {} {}", op, h, l, c));
+        }
+        out.push(format!("REN {} {} {} {}", h, l, c, hex_str("renamed_1")));
+    }
+}
+
 pub fn gen_feature_cases(rng: &mut Rng, n: usize, ops: &[&str], broken_pct: usize, out: &mut Vec<String>) {
     for i in 0..n {
         let prog = gen_prog::gen(rng, 3, 4, 3);
         let mut toks = prog.toks.clone();
-        let broken = rng.below(100) < broken_pct;
+        let mut broken = rng.below(100) < broken_pct;
+        // a third kind of document: syntactically fine, one violation of a static rule (all fault classes of
+        // C03: redeclared predefined names, a local hiding a procedure, wrong calls ...); the handlers are
+        // probed on the culprit tokens too
+        let mut culprit: Option<(usize, usize)> = None;
         if broken {
-            toks = gen_prog::mutate(rng, &toks);
+            if rng.chance(1, 3) {
+                let class = *rng.pick(crate::ops_sem::FAULT_CLASSES);
+                if let Some((t2, clo, chi, _)) = crate::ops_sem::inject(rng, &prog, class) {
+                    toks = t2;
+                    culprit = Some((clo, chi));
+                } else {
+                    toks = gen_prog::mutate(rng, &toks);
+                }
+            } else {
+                toks = gen_prog::mutate(rng, &toks);
+            }
+        } else if broken_pct > 0 && rng.chance(1, 12) {
+            let class = *rng.pick(crate::ops_sem::FAULT_CLASSES);
+            if let Some((t2, clo, chi, _)) = crate::ops_sem::inject(rng, &prog, class) {
+                toks = t2;
+                culprit = Some((clo, chi));
+                broken = true;
+            }
         }
         let lo = Layout { comment_pct: if i % 3 == 0 { 12 } else { 0 }, comment_gaps: if broken || i % 6 == 0 { None } else { Some(gen_prog::LEADING_GAPS) }, compact: rng.chance(1, 3) };
         let (text, offs, _) = gen_prog::layout(rng, &toks, &lo);
         let h = hex_str(&text);
         let mut p2 = prog.clone();
         p2.toks = toks;
-        let positions = gen_positions(rng, &text, &p2, &offs, 6);
+        let mut positions = gen_positions(rng, &text, &p2, &offs, 6);
+        if let Some((clo, chi)) = culprit {
+            // every token of the faulty construct and of the declaration around it (bounded)
+            let from = clo.saturating_sub(3);
+            for i in (from..chi.min(p2.toks.len())).take(8) {
+                positions.push(lsp_pos(&text, offs[i] + rng.below(p2.toks[i].text.len().max(1))));
+            }
+        }
         for op in ops {
             let spec = !broken;
             match *op {
